@@ -541,6 +541,12 @@ pub fn accepts(prop: &str, v: &Viol, ops: &[OpRec]) -> bool {
         "C15" => {
             in_list(&["uaf", "fifo", "receiver_order", "dup_recv", "corrupt_value", "drop_of_unknown_value"])
                 || (in_list(LEDGER_ALL) && opk.map(|o| o.k.is_async()).unwrap_or(false))
+                // zero-sized payloads are accounted by count only: the imbalance is this property's
+                // when a polled future of the program was dropped
+                || (in_list(LEDGER_ALL)
+                    && opk.is_none()
+                    && v.detail.starts_with("zero-sized payloads")
+                    && ops.iter().any(|o| o.k.is_async() && matches!(o.res, Res::Dropped(n) if n >= 1)))
                 // "dropping a future is safe": a drop that never returns is not
                 || ((p == "livelock" || p == "waited_inside_critical_section")
                     && opk.map(|o| o.k.is_async() && o.dropping).unwrap_or(false))
